@@ -75,6 +75,7 @@ type Out struct {
 	EnvOn    map[string]Res    `json:"envon,omitempty"`
 	EnvOff   map[string]Res    `json:"envoff,omitempty"`
 	EnvRef   map[string]Res    `json:"envref,omitempty"` // LoadFrom*Bytes of os.ExpandEnv(text): what UseEnv must equal
+	EnvMust  map[string]Res    `json:"envmust,omitempty"` // MustLoad / LoadConfig with conf.UseEnv() where Load succeeded
 	ByExt    map[string]Res    `json:"byext,omitempty"`  // conf.Load on c<ext>, loader chosen by the extension
 	Must     map[string]Res    `json:"must,omitempty"`   // conf.MustLoad where Load succeeded
 	Depr     map[string]Res    `json:"depr,omitempty"`   // LoadConfigFromJsonBytes / LoadConfigFromYamlBytes / LoadConfig
@@ -450,6 +451,20 @@ func runCase(c Case, dir string) (out Out) {
 			if out.EnvOn, err = loadFiles(rt, dir, texts, conf.UseEnv()); err != nil {
 				out.Fail = "files: " + err.Error()
 				return
+			}
+			// the option must reach Load through the wrappers too
+			out.EnvMust = map[string]Res{}
+			for _, f := range formats {
+				r := out.EnvOn[f]
+				if r.Verdict == "ok" {
+					p := filepath.Join(dir, "c."+f)
+					if f == "yaml" {
+						r = run(rt, func(t any) error { return conf.LoadConfig(p, t, conf.UseEnv()) })
+					} else {
+						r = run(rt, func(t any) error { conf.MustLoad(p, t, conf.UseEnv()); return nil })
+					}
+				}
+				out.EnvMust[f] = r
 			}
 			if c.Props != nil {
 				if out.PropsOn, err = loadProps(dir, c.Props, conf.UseEnv()); err != nil {
